@@ -1,9 +1,9 @@
 #!/bin/bash
-# tools/sweep.sh <tier> <seed>...   runs every registered check at the given seeds; prints one line per run
+# tools/sweep.sh <tier> <seed>...   runs every registered check (or those named in $IDS) at the given seeds; prints one line per run
 tier=$1; shift
 cd "$(dirname "$0")/.."
 for seed in "$@"; do
-  for id in C01 C02 C03 C04 C05 C06 C07 C08 C09 C10 C11 C12 C13 C14 C15 C16 C17 C18 C19 C20; do
+  for id in ${IDS:-C01 C02 C03 C04 C05 C06 C07 C08 C09 C10 C11 C12 C13 C14 C15 C16 C17 C18 C19 C20}; do
     out=$(VERIF_SEED=$seed ./check $id $tier 2>&1); rc=$?
     echo "rc=$rc $(echo "$out" | grep -E "^$id $tier" | tail -1)"
     if [ $rc -ne 0 ]; then echo "$out" | grep -E "bucket=|case=|detail=|VIOLATION|HARNESS" | head -12; fi
